@@ -20,7 +20,8 @@ SIGN_KINDS = ('doc', 'text', 'timestamp', 'msg', 'cleartext', 'cert_self', 'cert
 
 UIDS = [['Alice', '', 'alice@example.org'], ['Alice Work', 'work', 'alice@corp.example'], ['Bob', '', 'bob@example.org'],
         ['Björn Ünïcode', 'ß', 'bjorn@example.org'], ['Carol (the) Danvers', '', 'c@example.org'], ['Dave', 'home', ''],
-        ['', '', '']]            # the empty user id (RFC 4880 5.11 sets no minimum)
+        ['', '', ''],            # the empty user id (RFC 4880 5.11 sets no minimum)
+        ['Zoe\u0308 \u212bngstro\u0308m', '', 'z@example.org']]          # valid UTF-8, not in a composed normal form
 
 
 def gen_keys(rng, n=None, algs=None, heavy=0.12):
@@ -82,9 +83,11 @@ def gen_sign_step(rng, sid, knames, full_options=False):
                 elif name == 'notation':
                     opts[name] = rng.choice([{'a@example.org': 'v'}, {'k@example.org': 'v1', 'k2@example.org': ''},
                                              {'bin@example.org': {'hex': '00ff10'}}, {'u@example.org': 'café ☃'},
-                                             {'ü@example.org': 'x'}])
+                                             {'ü@example.org': 'x'}, {'long@example.org': 'v' * 200},
+                                             {'a@example.org': 'x' * 170, 'b@example.org': 'y' * 9000}])
                 elif name == 'policy_uri':
-                    opts[name] = rng.choice(['https://example.org/policy', 'http://x/', 'https://example.org/üñï'])
+                    opts[name] = rng.choice(['https://example.org/policy', 'http://x/', 'https://example.org/üñï',
+                                             'https://example.org/' + 'p' * 190, 'https://example.org/' + 'q' * 9000])
                 elif name == 'created_offset_s':
                     opts[name] = rng.choice([-86400, -1, 0, 1, 3600])
                     if rng.random() < 0.3:
@@ -106,7 +109,7 @@ def gen_sign_step(rng, sid, knames, full_options=False):
                     elif name == 'key_expiration_s':
                         opts[name] = rng.choice([86400 * 365 * 40, 86400 * 365 * 60])
                     elif name == 'keyserver':
-                        opts[name] = rng.choice(['hkp://keys.example.org', 'hkp://schlüssel.example.org'])
+                        opts[name] = rng.choice(['hkp://keys.example.org', 'hkp://schlüssel.example.org', 'hkp://' + 'k' * 200 + '.example.org'])
                     elif name == 'primary':
                         opts[name] = rng.choice([True, False])
                     elif name == 'exportable':
@@ -122,7 +125,7 @@ def gen_sign_step(rng, sid, knames, full_options=False):
                 opts['exportable'] = rng.choice([True, False])
         if kind.startswith('revoke'):
             opts['reason'] = rng.choice([0, 1, 2, 3, 32])
-            opts['comment'] = rng.choice(['', 'no longer used', 'compromised!', 'schlüssel verloren ☹'])
+            opts['comment'] = rng.choice(['', 'no longer used', 'compromised!', 'schlüssel verloren ☹', 'because ' * 30])
     st['opts'] = opts
     return st
 
